@@ -8,9 +8,18 @@ from harness import lib_queue as lq
 
 PID = 'C05'
 TITLE = 'Failures and stop requests propagate through queues without hanging'
-LEAN_MODULES = ['MlModel.Properties.C05', 'MlModel.Properties.C05Live', 'MlModel.Witness.C05']
+LEAN_MODULES = ['MlModel.Properties.C05', 'MlModel.Properties.C05Live', 'MlModel.Properties.C05Observe', 'MlModel.Witness.C05']
 TRUSTED = list(__import__('harness.props.c04', fromlist=['TRUSTED']).TRUSTED)
 ASSUMPTIONS = ['a timeout is modelled as a scheduler choice available whenever a thread is parked with a timeout configured']
+RULE8 = (' Round 8 (observers after the fact, non-Exception faults): every failing item raises ValueError or, p=0.35, one of '
+         'KeyboardInterrupt / SystemExit / GeneratorExit / asyncio.CancelledError (BaseExceptions that are not Exceptions; the '
+         'model has one failing item, the class matters to the oracle: every consumer has to end with THAT exception object); '
+         '260 (quick) directed late-observer cases with a phased schedule: the fault events happen in a chosen order (producer fails, '
+         'then a clean stop by another thread; clean stop while the producer is inside next(), then its failure; stop with an '
+         'exception; put / get timeouts) and only then one or two further consumers (get loop / get_batch loop) start; after EVERY run '
+         'that ended, the main thread probes the queue again through get / get_nowait / get_batch / iteration (q.exception must still '
+         'be set, every probe has to end with the failure, never StopIteration / Empty / [] / a wait); the observed event orders are '
+         'counted (histogram observer) and the promised ones enforced (exit 2)')
 RULE = ('as C04 plus: each producer source fails with p=0.4 at a random position; an extra thread calls maybe_stop() or '
         'maybe_stop(ValueError) (each p=0.25); timeout configured with p=0.3 (timeout choices drawn with weight 0.1); '
         'non-trivial = a fault event actually happened in the run (a consumer or producer ended with an error, or a stop '
@@ -18,7 +27,7 @@ RULE = ('as C04 plus: each producer source fails with p=0.4 at a random position
         'Model-guided stage: for 5 fixed small configurations (failing item; stop request without / with an exception; '
         'timeout; all together), seeded random walks on the Lean LTS are reduced (greedy cover) to schedules that together '
         'execute every program point (Pc constructor, timeout alternatives included) of the model; each is replayed on the '
-        'REAL code, compared as above and checked by the oracle; histograms pc / pc_unreached')
+        'REAL code, compared as above and checked by the oracle; histograms pc / pc_unreached.' + RULE8)
 
 
 def gen_cases(ctx):
@@ -40,11 +49,81 @@ def gen_cases(ctx):
                 sched=dict(kind=rng.choice(['random', 'pct']), seed=rng.randrange(10**9), tw=0.1,
                            changes=rng.randrange(1, 6), horizon=rng.choice([50, 150, 400])))
     ctx.count('mode', mode)
-    yield case
+    yield with_faults(rng, case, ctx)
+  for i in range(260 if ctx.quick else 6000):
+    yield with_faults(rng, late_observer_case(rng, i), ctx)
+    ctx.count('mode', 'late_observer')
   # many producers parked on a full queue when another one fails (needs every parked producer to be woken)
   for i in range(120 if ctx.quick else 3000):
-    yield blocked_producers_case(rng)
+    yield with_faults(rng, blocked_producers_case(rng), ctx)
     ctx.count('mode', 'blocked_producers')
+
+
+POST = ['get', 'get_nowait', 'get_batch', 'iter']
+BASE_FAULTS = [k for k in lq.FAULTS if k != 'fail']
+
+
+def with_faults(rng, case, ctx=None):
+  """fault alphabet: a failing item raises ValueError or a BaseException that is not an Exception; and every run is
+  followed by the after-the-fact probes (in a random order)"""
+  for p in case['threads']:
+    if p['kind'] == 'producer':
+      for k, v in enumerate(p['src']):
+        if v == 'fail' and rng.random() < 0.35:
+          p['src'][k] = rng.choice(BASE_FAULTS)
+        if ctx is not None and lq.is_fail(p['src'][k]):
+          ctx.count('fault_class', p['src'][k])
+  case['post'] = rng.sample(POST, len(POST))
+  return case
+
+
+ORDERS = ['fail,cleanstop', 'cleanstop,fail', 'fail', 'excstop', 'cleanstop', 'fail,excstop', 'timeout']
+
+
+def late_observer_case(rng, i):
+  """Directed event order, then consumers that arrive afterwards (phased schedule, see lib_queue.phased_chooser)."""
+  order = ORDERS[i % len(ORDERS)]
+  nprod = rng.randrange(1, 4)
+  failer = rng.randrange(nprod)
+  ths = []
+  for p in range(nprod):
+    n = rng.randrange(1, 4)
+    src = [p * 100 + k for k in range(n)]
+    if p == failer and 'fail' in order:
+      src.insert(rng.randrange(0, n + 1), 'fail')
+    ths.append(dict(kind='producer', src=src, ret=900 + p))
+  early = []
+  for _ in range(rng.randrange(0, 2) if order != 'timeout' else 1):
+    early.append(len(ths))
+    ths.append(dict(kind='get') if rng.random() < 0.5 else dict(kind='batch', max=rng.choice([1, 2, 1024]), block=rng.random() < 0.4))
+  stop = None
+  if 'stop' in order:
+    stop = len(ths)
+    ths.append(dict(kind='stopper', exc='ValueError') if 'excstop' in order else dict(kind='stopper'))
+  late = []
+  for k in range(rng.randrange(1, 3)):
+    late.append(len(ths))
+    ths.append(dict(kind='get') if (i // len(ORDERS) + k) % 2 == 0 else
+               dict(kind='batch', max=rng.choice([1, 2, 1024]), block=rng.random() < 0.4))
+  prods = list(range(nprod))
+  first = prods + early
+  if order == 'cleanstop,fail':
+    kfail = ths[failer]['src'].index('fail')
+    phases = [dict(tids=first, until=dict(tid=failer, nexts=kfail)), dict(tids=[stop]), dict(tids=first), dict(tids=late)]
+  elif order in ('cleanstop', 'excstop'):
+    # the stop request arrives somewhere in the middle of the run
+    phases = [dict(tids=first, until=dict(tid=failer, nexts=rng.randrange(0, len(ths[failer]['src']) + 1))),
+              dict(tids=[stop]), dict(tids=first), dict(tids=late)]
+  elif stop is not None:
+    phases = [dict(tids=first), dict(tids=[stop]), dict(tids=late)]
+  else:
+    phases = [dict(tids=first), dict(tids=late)]
+  timeout = order == 'timeout' or (rng.random() < 0.15)
+  cap = rng.choice([0, 0, 1, 2]) if early else 0
+  if order == 'timeout':
+    cap = rng.choice([1, 1, 2])      # producers park on the full queue and time out; consumers on the empty one
+  return dict(cap=cap, max_enq=nprod, timeout=timeout, mode='late_observer', order=order, threads=ths,
+              sched=dict(kind='phased', seed=rng.randrange(10**9), phases=phases, tw=0.25 if order == 'timeout' else 0.03))
 
 
 def blocked_producers_case(rng):
@@ -82,6 +161,13 @@ def extra(ctx):
   """Model-guided stage: schedules chosen by random walks on the Lean LTS so that together they execute EVERY
   program point of the model (timeout alternatives included), replayed on the real code and compared step by step."""
   lq.model_guided(ctx, GUIDED_CONFIGS, ctx.seed, unreachable={}, oracle=oracle)
+  ctx.hist['observer'] = dict(sorted(OBSERVED.items()))
+  missing = [k for k in PROMISED if not OBSERVED.get(k)]
+  ctx.notes.append(f'observers after the fact: {sum(OBSERVED.get(k, 0) for k in PROMISED)} consumer starts / probe rounds after a '
+                   f'promised event order ({len(PROMISED)} orders promised, missing {missing})')
+  if missing:
+    from harness.core import InfraError
+    raise InfraError(f'C05: promised event orders not exercised by any run that ended: {missing}')
 
 
 run_impl = lq.run_impl
@@ -91,6 +177,34 @@ model_obs = lq.model_obs
 compare = lq.compare
 
 
+def history(case, obs):
+  """The fault events of a run, located in its trace (index of the step), and when each thread started / ended.
+  Written from the property text and the call protocol only: a producer's source raises at its k-th pull (the step
+  labelled 'next' of that thread); a stop request is complete when the stopper thread has ended; a put timeout is on
+  record when the producer has ended with TimeoutError."""
+  tr = obs['trace']
+  th = obs['threads']
+  start, last, nexts = {}, {}, {}
+  for k, (tid, lbl) in enumerate(tr):
+    start.setdefault(tid, k)
+    last[tid] = k
+    if lbl == 'next':
+      nexts.setdefault(tid, []).append(k)
+  ev = []          # (step, kind, tid, class name the consumers have to see)
+  for i, p in enumerate(case['threads']):
+    o = th[i]['outcome'] if i < len(th) else None
+    if p['kind'] == 'producer':
+      fails = [k for k, v in enumerate(p['src']) if lq.is_fail(v)]
+      if fails and len(nexts.get(i, [])) > fails[0]:
+        ev.append((nexts[i][fails[0]], 'fail', i, lq.FAULTS[p['src'][fails[0]]].__name__))
+      elif o and o['raise'] == 'TimeoutError' and th[i]['done']:
+        ev.append((last[i], 'puttimeout', i, 'TimeoutError'))
+    elif p['kind'] == 'stopper' and th[i]['done'] and i in last:
+      ev.append((last[i], 'excstop' if p.get('exc') else 'cleanstop', i, 'ValueError' if p.get('exc') else None))
+  ev.sort()
+  return dict(start=start, last=last, events=ev)
+
+
 def oracle(case, obs):
   if obs['outcome'] != 'done':
     return f"{obs['outcome']}: threads blocked forever {obs['blocked']} after {len(obs['choices'])} steps"
@@ -98,6 +212,7 @@ def oracle(case, obs):
   if w:
     return w
   th = obs['threads']
+  excs = obs.get('excs') or [None] * len(th)
   prod_failed = [i for i, _ in lq.producers(case) if th[i]['outcome'] and th[i]['outcome']['raise'] == 'ValueError']
   stop = [p for p in case['threads'] if p['kind'] == 'stopper']
   if prod_failed and not stop and not case['timeout']:
@@ -122,10 +237,102 @@ def oracle(case, obs):
       o = th[i]['outcome']
       if o and o['raise'] == 'TimeoutError':
         return f'thread {i} raised TimeoutError although no timeout is configured'
+  # a producer whose source raised re-raises THAT exception (whatever its class)
+  for i, p in lq.producers(case):
+    o, x = th[i]['outcome'], excs[i]
+    if o and o['raise'].startswith('Base:'):
+      return f'producer {i} ended with {x}, which no source raised'
+  # ---- observers after the fact (round 8): a recorded failure is never cleared; every consumer that arrives after it
+  # was recorded observes it -- whatever stop requests / timeouts happened in between
+  h = history(case, obs)
+  failures = [e for e in h['events'] if e[1] != 'cleanstop']
+  classes = sorted({e[3] for e in failures})
+  for i, _ in lq.consumers(case):
+    if i not in h['start']:
+      continue
+    before = [e for e in failures if e[0] < h['start'][i]]
+    o, x = th[i]['outcome'], excs[i]
+    if before:
+      if not o or not x or x['cls'] not in classes or o['raise'] == 'StopIteration':
+        return (f'consumer {i} started at step {h["start"][i]}, after the failure {before[0][1]} of thread {before[0][2]} at step '
+                f'{before[0][0]} (events {h["events"]}), but ended with {o} {x}: a recorded failure was lost')
+    elif not failures and any(e[1] == 'cleanstop' and e[0] < h['start'][i] for e in h['events']):
+      if not o or o['raise'] != 'StopIteration':
+        return f'consumer {i} started after a clean stop request and no failure happened, but ended with {o}'
+  for i, _ in lq.consumers(case):
+    o, x = th[i]['outcome'], excs[i]
+    if o and x and o['raise'] not in ('StopIteration', 'TimeoutError') and x['cls'] not in classes:
+      return f'consumer {i} ended with {x} but the failures of this run are {classes}'
+    if o and o['raise'] == 'ValueError' and x and x['cls'] != 'ValueError' and not x['same']:
+      return f'consumer {i} ended with a {x["cls"]} that is not the object the source raised'
+  post = obs.get('post')
+  if post is not None:
+    if failures and post['exception'] is None:
+      return f'failures {failures} happened but q.exception is None when the run has ended: the recorded failure was cleared'
+    if failures and post['exception']['cls'] not in classes:
+      return f'q.exception is {post["exception"]} but the failures of this run are {classes}'
+    seen = [v for i, _ in lq.consumers(case) for v in th[i]['received']]
+    deferred = None
+    for pr in post['probes']:
+      e, x = pr['end'], pr['exc']
+      if pr['kind'] == 'get_nowait' and e and e['raise'] == 'RuntimeError':
+        # open finding F-C05-getnowait-unlocked; reported only if nothing else is wrong with this run
+        deferred = (f'late consumer (get_nowait) called the public get_nowait() directly and got RuntimeError after '
+                    f'{pr["values"]} (notify_all on the un-acquired dequeue lock in _set_exhausted)')
+        continue
+      late = [v for v in pr['values'] if v in seen or v not in lq.all_values(case)]
+      if late or len(set(pr['values'])) != len(pr['values']):
+        return f'late consumer ({pr["kind"]}) was handed {pr["values"]}: duplicated / invented elements'
+      seen += pr['values']
+      if e is None or e['raise'] in ('would_block', 'NeverEnds', 'Empty', 'EmptyBatch'):
+        return f'late consumer ({pr["kind"]}) after the run ended with {e}: neither the failure nor an end of the stream'
+      if failures:
+        if x is None or x['cls'] not in classes or e['raise'] == 'StopIteration':
+          return (f'late consumer ({pr["kind"]}) arriving after the failures {failures} ended with {e} {x}: '
+                  f'a recorded failure was lost (events {h["events"]})')
+      elif e['raise'] != 'StopIteration':
+        return f'late consumer ({pr["kind"]}) ended with {e} {x} although no failure happened (events {h["events"]})'
+    if post['exception_after'] != post['exception']:
+      return f'q.exception changed while late consumers looked at the queue: {post["exception"]} -> {post["exception_after"]}'
+    return deferred
   return None
 
 
+OBSERVED = {}       # event orders seen before a consumer started / before the probes (main process, see nontrivial)
+PROMISED = ['fail<consumer', 'fail<cleanstop<consumer', 'cleanstop<fail<consumer', 'excstop<consumer', 'cleanstop<consumer',
+            'puttimeout<consumer', 'fail<cleanstop<probes', 'cleanstop<fail<probes', 'fail<probes', 'excstop<probes',
+            'cleanstop<probes', 'puttimeout<probes', 'base-fault<consumer', 'base-fault<probes']
+
+
+def observe(case, obs):
+  if obs['outcome'] != 'done':
+    return
+  h = history(case, obs)
+
+  def key(evs, who):
+    ks = []
+    for e in evs:
+      if e[1] not in ks:
+        ks.append(e[1])
+    return '<'.join(ks + [who])
+  def note(k):
+    OBSERVED[k] = OBSERVED.get(k, 0) + 1
+  for i, p in lq.consumers(case):
+    if i in h['start']:
+      evs = [e for e in h['events'] if e[0] < h['start'][i]]
+      if evs:
+        note(key(evs, 'consumer'))
+        note(key(evs, 'consumer') + ':' + p['kind'])
+        if any(e[1] == 'fail' and e[3] != 'ValueError' for e in evs):
+          note('base-fault<consumer')
+  if obs.get('post') is not None and h['events']:
+    note(key(h['events'], 'probes'))
+    if any(e[1] == 'fail' and e[3] != 'ValueError' for e in h['events']):
+      note('base-fault<probes')
+
+
 def nontrivial(case, obs):
+  observe(case, obs)
   ch = [c[0] for c in obs['choices']]
   turns = sum(1 for a, b in zip(ch, ch[1:]) if a != b)
   fault = any(t['outcome'] and t['outcome']['raise'] != 'StopIteration' for t in obs['threads']) or \
@@ -134,6 +341,8 @@ def nontrivial(case, obs):
 
 
 def finding(case, what):
+  if what and what.startswith('late consumer (get_nowait) called the public get_nowait() directly and got RuntimeError'):
+    return 'F-C05-getnowait-unlocked'
   return None
 
 
